@@ -481,7 +481,7 @@ func runC14(c *core.Ctx) core.Meta {
 	}
 	// release only after a successful send (SEND-DISCIPLINE with the boolean wrapper inlined)
 	RunProto(c, &ProtoCfg{
-		RuleBase: "R14.5.send", Pkg: cuPkg, FloorSends: 1,
+		RuleBase: "R14.5.send", Pkg: cuPkg, FloorSends: 1, AllEffectsAfterSend: true,
 		Effects: []Effect{
 			CallEffect("clearWGResource", false, core.ModPath+"/amd/timing/cu.ComputeUnit.clearWGResource"),
 			CallEffect("resetRegisterValue", false, core.ModPath+"/amd/timing/cu.SchedulerImpl.resetRegisterValue"),
@@ -490,7 +490,9 @@ func runC14(c *core.Ctx) core.Meta {
 		OnlyFuncs: func(name string) bool {
 			return name == "SchedulerImpl.evalSEndPgm" || name == "SchedulerImpl.sendWGCompletionMessage" || name == "ComputeUnit.handleWfCompletionEvent"
 		},
-		Exempt: map[string]string{},
+		Exempt: map[string]string{
+			"ComputeUnit.handleWfCompletionEvent:State=WfCompleted:pre": "the sampled-wavefront completion event marks its own wavefront completed before trying to send; on a failed send the same event is rescheduled and only this (last) wavefront retries, so the early mark is idempotent and no second message can be produced",
+		},
 	})
 	// emulator side: message built only when no work-group is left; list cleared on success, event rescheduled on failure
 	if fn := c.MustFunc("R14.5", emuPkg, "ComputeUnit.handleWGCompleteEvent"); fn != nil {
